@@ -151,6 +151,7 @@ func (x *exec) inline(s *State, fn *ssa.Function, args []Value, bind []Value, po
 	s.defers = nil
 	y.entry = s.clone()
 	out, vals := y.run(s)
+	e.cur = x
 	if out == nil {
 		s.pc = e.C.False()
 		return e.zeroResults(fn.Signature)
@@ -197,6 +198,11 @@ func (x *exec) run(s *State) (*State, []Value) {
 func (x *exec) defaultCall(s *State, key string, args []Value, sig *types.Signature, pos token.Pos) Value {
 	e := x.e
 	e.Unverified[key] = true
+	{
+		nn := e.C.Fresh("next", Int)
+		nn.AddFact(e.C.Le(s.next, nn))
+		s.next = nn
+	}
 	// havoc what the arguments give direct access to
 	for _, a := range args {
 		x.havocReachable(s, a)
@@ -238,6 +244,7 @@ func (x *exec) havocReachable(s *State, a Value) {
 		for key, so := range e.heapSorts {
 			if strings.HasPrefix(key, "A:") && so.Elem.Kind == KArray {
 				h := e.heapGet(s, key, so)
+				e.noteWrite(s, key, wtarget{kind: wRow, arr: v.Arr, lo: v.Off, n: v.Cap})
 				e.heapSet(s, key, c.Store(h, v.Arr, c.Fresh("ext.row", so.Elem)))
 			}
 		}
@@ -272,7 +279,13 @@ func (x *exec) callbackCall(s *State, fv Value, args []Value, res *types.Tuple, 
 	if f, ok := fv.(FuncV); ok && f.Opaque != nil {
 		x.oblige("nil", "", pos, s, e.C.Ne(f.Opaque, e.C.IntC(0)), "call of nil function")
 	}
+	{
+		nn := e.C.Fresh("next", Int)
+		nn.AddFact(e.C.Le(s.next, nn))
+		s.next = nn
+	}
 	// an unknown callback may change the whole heap
+	e.noteWrite(s, "*", wtarget{kind: wAll})
 	for key, so := range e.heapSorts {
 		if strings.HasPrefix(key, "ghost:") {
 			continue
@@ -413,23 +426,24 @@ func (x *exec) builtin(s *State, name string, args []Value, cc *ssa.CallCommon, 
 func (x *exec) copyElems(s *State, el types.Type, dArr, dOff, sArr, sOff, n *Term) {
 	e := x.e
 	c := e.C
-	if structOf(el) != nil {
-		if n.Op == "int" && n.IVal.IsInt64() && n.IVal.Int64() <= 4 {
-			var vals []Value
-			for k := int64(0); k < n.IVal.Int64(); k++ {
-				vals = append(vals, e.load(s, PtrV{Kind: PObj, Ref: e.elemRef(sArr, c.Add(sOff, c.IntC(k))), T: el}))
-			}
-			for k, v := range vals {
-				e.store(s, PtrV{Kind: PObj, Ref: e.elemRef(dArr, c.Add(dOff, c.IntC(int64(k)))), T: el}, v)
-			}
-			return
-		}
-		x.copyStructElems(s, el, dArr, dOff, sArr, sOff, n)
-		return
+	type rowKey struct {
+		key  string
+		sort *Sort
 	}
-	for _, l := range e.leavesOf(el) {
-		key := elemKey(el) + l.comp
+	var keys []rowKey
+	if structOf(el) != nil {
+		for _, lp := range e.structLeaves(el) {
+			keys = append(keys, rowKey{lp.key, lp.sort})
+		}
+	} else {
+		for _, l := range e.leavesOf(el) {
+			keys = append(keys, rowKey{elemKey(el) + l.comp, l.sort})
+		}
+	}
+	for _, l := range keys {
+		key := l.key
 		h := e.heapGet(s, key, Array(Int, Array(Int, l.sort)))
+		e.noteWrite(s, key, wtarget{kind: wRow, arr: dArr, lo: dOff, n: n})
 		srcRow := c.Select(h, sArr)
 		dstRow := c.Select(h, dArr)
 		var newRow *Term
@@ -454,34 +468,18 @@ func (x *exec) copyElems(s *State, el types.Type, dArr, dOff, sArr, sOff, n *Ter
 	}
 }
 
-func (x *exec) copyStructElems(s *State, el types.Type, dArr, dOff, sArr, sOff, n *Term) {
-	e := x.e
-	c := e.C
-	for _, lp := range e.structLeaves(el) {
-		h := e.heapGet(s, lp.key, Array(Int, lp.sort))
-		nh := c.Fresh("Hc:"+lp.key, Array(Int, lp.sort))
-		r := c.BoundVar("r", Int)
-		er := lp.unmk(r)
-		idx := c.App("elemIdx", Int, er)
-		isDst := c.And(lp.ok(r), e.isElemOf(er, dArr, dOff, c.Add(dOff, n)))
-		src := c.Select(h, lp.mk(c.App("elem", Int, sArr, c.Add(sOff, c.Sub(idx, dOff)))))
-		sel := c.Select(nh, r)
-		nh.AddFact(c.Quant("forall", []*Term{r}, c.Eq(sel, c.Ite(isDst, src, c.Select(h, r))), [][]*Term{{sel}}))
-		e.heapSet(s, lp.key, nh)
-	}
-}
-
 func (x *exec) copyFromString(s *State, dArr, dOff, str, n *Term) {
 	e := x.e
 	c := e.C
 	key := "A:uint8"
 	h := e.heapGet(s, key, Array(Int, Array(Int, BV8)))
+	e.noteWrite(s, key, wtarget{kind: wRow, arr: dArr, lo: dOff, n: n})
 	dstRow := c.Select(h, dArr)
 	newRow := c.Fresh("copystr", Array(Int, BV8))
 	k := c.BoundVar("k", Int)
 	in := c.And(c.Le(dOff, k), c.Lt(k, c.Add(dOff, n)))
 	sel := c.Select(newRow, k)
-	body := c.Eq(sel, c.Ite(in, c.App("str.at", BV8, str, c.Sub(k, dOff)), c.Select(dstRow, k)))
+	body := c.Eq(sel, c.Ite(in, c.App("s.at", BV8, str, c.Sub(k, dOff)), c.Select(dstRow, k)))
 	newRow.AddFact(c.Quant("forall", []*Term{k}, body, [][]*Term{{sel}}))
 	e.heapSet(s, key, c.Store(h, dArr, newRow))
 }
@@ -511,6 +509,7 @@ func (x *exec) doAppend(s *State, args []Value, cc *ssa.CallCommon, pos token.Po
 	fits := c.Le(newLen, base.Cap)
 	// in-place branch
 	sIn := s.clone()
+	sIn.assume(c, fits)
 	if srcStr != nil {
 		x.copyFromString(sIn, base.Arr, c.Add(base.Off, base.Len), srcStr, n)
 	} else {
@@ -518,6 +517,7 @@ func (x *exec) doAppend(s *State, args []Value, cc *ssa.CallCommon, pos token.Po
 	}
 	// growing branch: fresh array holding old then new elements
 	sGrow := s.clone()
+	sGrow.assume(c, c.Not(fits))
 	arr := e.newRef(sGrow, "append")
 	ncap := c.Fresh("appendcap", Int)
 	ncap.AddFact(c.And(c.Le(newLen, ncap), c.Le(ncap, c.Add(c.Mul(c.IntC(2), newLen), c.IntC(64)))))
@@ -735,7 +735,7 @@ func (x *exec) lookup(s *State, i *ssa.Lookup) Value {
 		str := x.val(i.X, s).(*Term)
 		idx := x.val(i.Index, s).(*Term)
 		x.oblige("bounds", "", i.Pos(), s, c.And(c.Le(c.IntC(0), idx), c.Lt(idx, e.strLen(str))), "string index out of range")
-		return c.App("str.at", BV8, str, idx)
+		return c.App("s.at", BV8, str, idx)
 	}
 	mt := i.X.Type().Underlying().(*types.Map)
 	m, _ := x.val(i.X, s).(*Term)
@@ -778,6 +778,7 @@ func (x *exec) mapUpdate(s *State, i *ssa.MapUpdate) {
 	key := mapKey(i.Map.Type())
 	hasH := e.heapGet(s, key+"#has", Array(Int, Array(ks, Bool)))
 	had := c.Select(c.Select(hasH, m), kt)
+	e.noteWrite(s, key, wtarget{kind: wRef, ref: m})
 	e.heapSet(s, key+"#has", c.Store(hasH, m, c.Store(c.Select(hasH, m), kt, c.True())))
 	ts, err := e.toLeaves(mt.Elem(), x.val(i.Value, s))
 	if err != nil {
@@ -803,6 +804,7 @@ func (x *exec) mapDelete(s *State, m *Term, k Value, t types.Type) {
 	key := mapKey(t)
 	hasH := e.heapGet(s, key+"#has", Array(Int, Array(ks, Bool)))
 	had := c.And(c.Ne(m, c.IntC(0)), c.Select(c.Select(hasH, m), kt))
+	e.noteWrite(s, key, wtarget{kind: wRef, ref: m})
 	e.heapSet(s, key+"#has", c.Store(hasH, m, c.Store(c.Select(hasH, m), kt, c.False())))
 	lh := e.heapGet(s, key+"#len", Array(Int, Int))
 	e.heapSet(s, key+"#len", c.Store(lh, m, c.Sub(c.Select(lh, m), c.Ite(had, c.IntC(1), c.IntC(0)))))
